@@ -11,7 +11,12 @@
     [oracles] supplies everything that depends on string contents or on f32 arithmetic and is
     universally quantified; [mt_ok] / [oracles_ok] / [snap_ok] say only that a measured string
     has at most as many columns as bytes.  [builder_op o]: o is a method of ProgressStyle (not the
-    tab width change a ProgressBar makes); [tab_sane st]: the tab width is at most isize::MAX. *)
+    tab width change a ProgressBar makes); [tab_sane st]: the tab width is at most isize::MAX.
+    Resource assumption A4 (all theorems): the model has no outcome for a failed allocation (the
+    process aborts; not a panic) and none for a tab expansion whose RESULT would exceed isize::MAX
+    bytes (#tabs * tab_width; a capacity-overflow panic): strings the renderer builds are taken to
+    fit in memory.  With the default tab width 8 that asks for 8x the text; with a tab width set by
+    the bar it is a real restriction, hence the `_partial` name below. *)
 From IndModel Require Import Base Template Builder.
 From IndProofs Require Import BuilderProofs.
 From Coq Require Import NArith List.
@@ -22,7 +27,7 @@ Open Scope N_scope.
     state (position, length or none, tick - any natural number, in particular all of
     0..=u64::MAX -, finished or not, any message and prefix), every terminal width (any natural
     number, in particular 0..=65535) and every behaviour of the width tables / the FPU, no
-    panic site of format_state is reached. *)
+    panic site of format_state is reached.  (Tab width = the default 8; A4 as above.) *)
 Theorem C14_accepted_renders : forall (c : ctor) (ops : list bop) (st : style),
   Forall builder_op ops -> build c ops = BOk st ->
   forall (sn : snapshot) (tw : N) (O : oracles),
@@ -31,20 +36,27 @@ Theorem C14_accepted_renders : forall (c : ctor) (ops : list bop) (st : style),
 Proof. exact accepted_renders. Qed.
 Print Assumptions C14_accepted_renders.
 
-(** The same when the bar changes the tab width (ProgressBar::with_tab_width / set_tab_width,
-    modelled by OSetTab), for every tab width up to isize::MAX. *)
-Theorem C14_accepted_renders_any_tab : forall (c : ctor) (ops : list bop) (st : style),
+(** PARTIAL.  The same when the bar changes the tab width (ProgressBar::with_tab_width /
+    set_tab_width, modelled by OSetTab): no panic SITE of the model is reached for any tab width
+    up to isize::MAX.  What is missing for "renders without panicking for every tab width <=
+    isize::MAX": A4.  On the real code `" ".repeat(tab_width)` (custom keys and {spinner}: every
+    draw; texts with a TAB: on expansion) needs tab_width bytes, so a tab width beyond the free
+    memory aborts the process (observed at 1<<62), and a text with k TABs panics with "capacity
+    overflow" as soon as k * tab_width > isize::MAX.  isize::MAX is the bound of the ONE panic
+    site that depends on the configuration alone (class D24), not the edge of the failing region. *)
+Theorem C14_accepted_renders_any_tab_partial : forall (c : ctor) (ops : list bop) (st : style),
   build c ops = BOk st -> tab_sane st ->
   forall (sn : snapshot) (tw : N) (O : oracles),
     snap_ok sn -> oracles_ok O ->
     render_outcome st sn tw O = Ok tt.
 Proof. exact accepted_renders_any_tab. Qed.
-Print Assumptions C14_accepted_renders_any_tab.
+Print Assumptions C14_accepted_renders_any_tab_partial.
 
 (** REFUTED for tab widths above isize::MAX (open known finding D24, class "draw-panic-tab-width-huge"): with
-    ProgressBar::with_tab_width(usize::MAX) a template that holds a with_key key panics in the
-    draw (`" ".repeat(tab_width)`, capacity overflow) although no builder call panicked.
-    Reproduced on the implementation (docs/C14.md). *)
+    ProgressBar::with_tab_width(usize::MAX) a template that holds a with_key key - or, since
+    commit 6ff82af, {spinner} (example C14_ex_huge_tab_spinner) - panics in the draw
+    (`" ".repeat(tab_width)` in TabRewriter::write_str, capacity overflow) although no builder call
+    panicked.  Reproduced on the implementation (docs/C14.md). *)
 Theorem C14_huge_tab_refuted :
   exists st, build (CWithTemplate huge_tab_template) huge_tab_ops = BOk st
     /\ StyleOK st /\ snap_ok plain_snap /\ oracles_ok plain_oracles
@@ -54,7 +66,7 @@ Print Assumptions C14_huge_tab_refuted.
 
 (** ... and the whole draw of one frame (format_state, then draw_to_term on a terminal of any
     u16 width and height, zero included, top or bottom aligned, after any previous frame
-    height n <= usize::MAX - 65536) reaches no panic site either. *)
+    height n <= usize::MAX - 65536) reaches no panic site either (A4 as for `_any_tab_partial`). *)
 Theorem C14_accepted_draws : forall (c : ctor) (ops : list bop) (st : style),
   build c ops = BOk st -> tab_sane st ->
   forall (sn : snapshot) (tw th n : N) (bottom : bool) (O : oracles),
@@ -65,8 +77,8 @@ Proof. exact accepted_draws. Qed.
 Print Assumptions C14_accepted_draws.
 
 (** The invariant behind it: every style the builder returns has >= 2 tick strings, >= 2
-    progress characters, all of the same width >= 1 which is char_width, and template widths
-    that fit u16. *)
+    progress characters, all of the same width >= 1 which is char_width, none containing a TAB,
+    and template widths that fit u16. *)
 Theorem C14_invariant : forall (c : ctor) (ops : list bop) (st : style),
   build c ops = BOk st -> StyleOK st.
 Proof. exact build_ok. Qed.
@@ -90,8 +102,9 @@ Proof. exact accepted_ticks. Qed.
 Print Assumptions C14_accepted_ticks.
 
 (** Rejected early: fewer than two tick characters / strings / progress characters, progress
-    characters of unequal width, zero-width progress characters panic in the builder call
-    itself, at the assertion written for it - whatever the style they are applied to. *)
+    characters of unequal width, zero-width progress characters, progress characters (otherwise
+    fine) one of which holds a TAB panic in the builder call itself, at the assertion written for
+    it - whatever the style they are applied to. *)
 Theorem C14_rejects_early : forall (st : style),
   (forall s, nlen s < 2 -> bstep st (OTickChars s) = BPanic SITE_TICK_CHARS)
   /\ (forall l, nlen l < 2 -> bstep st (OTickStrings l) = BPanic SITE_TICK_STRINGS)
@@ -99,7 +112,10 @@ Theorem C14_rejects_early : forall (st : style),
   /\ (forall cl, 2 <= nlen cl -> (exists a b, In a cl /\ In b cl /\ cl_w a <> cl_w b) ->
         bstep st (OProgressChars cl) = BPanic SITE_WIDTH_UNEQUAL)
   /\ (forall cl, 2 <= nlen cl -> Forall (fun c => cl_w c = 0) cl ->
-        bstep st (OProgressChars cl) = BPanic SITE_PCHARS_ZERO).
+        bstep st (OProgressChars cl) = BPanic SITE_PCHARS_ZERO)
+  /\ (forall cl w, 2 <= nlen cl -> 1 <= w -> Forall (fun c => cl_w c = w) cl ->
+        (exists c, In c cl /\ In 9 (cl_text c)) ->
+        bstep st (OProgressChars cl) = BPanic SITE_PCHARS_TAB).
 Proof. exact rejects_early. Qed.
 Print Assumptions C14_rejects_early.
 
@@ -109,7 +125,7 @@ Theorem C14_accepts_exactly : forall (st : style) (o : bop),
 Proof. exact bstep_accepts. Qed.
 Print Assumptions C14_accepts_exactly.
 
-(** ... and refuses everything else at once: a panic at one of its five assertions, or
+(** ... and refuses everything else at once: a panic at one of its six assertions, or
     Err(TemplateError) for a template - never a style that fails later. *)
 Theorem C14_rejects_exactly : forall (st : style) (o : bop),
   ~ accepts o ->
@@ -124,6 +140,15 @@ Print Assumptions C14_rejects_exactly.
 Theorem C14_constructors_never_panic : forall (c : ctor) (s : N), construct c <> BPanic s.
 Proof. exact construct_no_panic. Qed.
 Print Assumptions C14_constructors_never_panic.
+
+(** The debug_assert of TabExpandedString::expanded (state.rs:386, a panic site of debug builds)
+    is never reached: every TabExpandedString is made by `new`, which picks the NoTabs variant
+    exactly for tab-free text; the site itself is inhabited (a NoTabs value holding a tab). *)
+Theorem C14_notabs_assert_unreachable : forall (st : style),
+  (forall b, expanded_new st b <> Panic SITE_NOTABS_ASSERT)
+  /\ expanded_site st VNoTabs true = Panic SITE_NOTABS_ASSERT.
+Proof. exact notabs_assert_unreachable. Qed.
+Print Assumptions C14_notabs_assert_unreachable.
 
 (** Cross-check with the models of C12 (Padded.v) and C11 (Keys.v), written independently from
     the same Rust functions: PaddedStringDisplay::fmt panics in one model iff it does in the
@@ -172,6 +197,15 @@ Example C14_ex_zero_width :            (* progress_chars("\u{200b}\u{200b}") bef
                           [PPh (mkph KeyNames.wide_bar ALeft None false None None)] [] 8)
                  ex_snap 80 ex_oracles = Panic SITE_BAR_DIV.
 Proof. reflexivity. Qed.
+(* since 6ff82af the tick string goes through TabRewriter: D24's class covers {spinner} *)
+Example C14_ex_huge_tab_spinner :
+  exists st, build CDefaultSpinner [OSetTab 9223372036854775808] = BOk st /\ StyleOK st
+    /\ render_outcome st plain_snap 80 plain_oracles = Panic SITE_TAB_REPEAT.
+Proof.
+  eexists. split; [vm_compute; reflexivity|].
+  split; [apply (build_ok CDefaultSpinner [OSetTab 9223372036854775808]); vm_compute; reflexivity|].
+  vm_compute. reflexivity.
+Qed.
 (* [mt_ok] is needed: a (fictitious) string wider in columns than long in bytes underflows *)
 Example C14_ex_mt_ok_needed : padded_sites (mkmt 1 3) 0 ALeft true = Panic SITE_PAD_LEFT.
 Proof. reflexivity. Qed.
@@ -179,5 +213,6 @@ Example C14_ex_rejected :
   build CDefaultBar [OTickStrings [[97]]] = BPanic SITE_TICK_STRINGS
   /\ build CDefaultBar [OProgressChars [mkcl [97] 1; mkcl [26085] 2]] = BPanic SITE_WIDTH_UNEQUAL
   /\ build CDefaultBar [OProgressChars [mkcl [8203] 0; mkcl [8203] 0]] = BPanic SITE_PCHARS_ZERO
+  /\ build CDefaultBar [OProgressChars [mkcl [35] 1; mkcl [9] 1]] = BPanic SITE_PCHARS_TAB
   /\ ~ accepts (OTickChars [97]).
 Proof. repeat split; try (vm_compute; reflexivity). cbn. vm_compute. intros H; apply H; reflexivity. Qed.
